@@ -38,7 +38,7 @@ static void call_begin(const char *fn, const char *be, const char *params)
 {
     char key[256];
     snprintf(cur_fn, sizeof(cur_fn), "%s", fn); snprintf(cur_be, sizeof(cur_be), "%s", be);
-    snprintf(key, sizeof(key), "C08:%s:%s:secret-dependent-branch-or-address(%s)", fn, be, params);
+    (void)params; snprintf(key, sizeof(key), "C08:%s:%s:secret-dependent-branch-or-address-or-fault", fn, be);
     vh_set_crash_key(key);
     e_before = ERRCOUNT();
     vh_call_begin(fn);
